@@ -22,9 +22,20 @@ V = core.Violation
 _ORIG_EXPAND = yastn.Tensor.expand_krylov_space
 
 
+class KrylovStepCap(Exception):
+    """Raised by the probe when one worker step asks for more Krylov expansions than the simulator's step budget."""
+
+
+KRYLOV_BUDGET = 20000      # expansions per worker step; ordinary steps need tens to a few hundred
+
+
 def _observed_expand(self, f, tol, ncv, hermitian, V, H=None, **kwargs):
-    V2, H2, happy = _ORIG_EXPAND(self, f, tol, ncv, hermitian, V, H, **kwargs)
     wd = core.current_world()
+    if wd is not None:
+        wd.krylov_calls = getattr(wd, "krylov_calls", 0) + 1
+        if wd.krylov_calls > KRYLOV_BUDGET:
+            raise KrylovStepCap("more than %d Krylov expansions inside one worker step" % KRYLOV_BUDGET)
+    V2, H2, happy = _ORIG_EXPAND(self, f, tol, ncv, hermitian, V, H, **kwargs)
     if wd is not None and 2 <= len(V2) <= 16:
         # probe: did the basis stay orthonormal?  (an undetected Lanczos/Arnoldi breakdown shows up here)
         dev = 0.0
@@ -244,6 +255,7 @@ class MDmrgStep(e1.Op):
             w.method.update_(rec["args"]["switch_to"])       # F9: method switched between yields
             core.current_world().stats["fault_method_switch"] += 1
         k0 = krylov_bad()
+        core.current_world().krylov_calls = 0
         try:
             self._out = next(w.gen)
         except StopIteration:
@@ -441,10 +453,18 @@ class MTdvpStep(e1.Op):
         self._nlog0 = len(w.log)
         if w.done:
             return []
+        wd = core.current_world()
+        wd.krylov_calls = 0
         try:
             self._out = next(w.gen)
         except StopIteration:
             w.done = True
+        except KrylovStepCap:
+            # known finding K-C10-expmv-stagnation: expmv's adaptive step collapses (tau ~ 1e-8) and the sweep would need ~1e7 iterations.
+            # The simulator's step budget ends the worker; no oracle can be evaluated on a result that was never produced.
+            core.known_hit("K-C10-expmv-stagnation")
+            w.done = True
+            self._out = None
         w.steps += 1
         return []
 
@@ -579,6 +599,13 @@ class MTdvpRelations(e1.Op):
         return dense_state(task, psi), outs
 
     def run(self, task, rec, ins):
+        try:
+            return self._run(task, rec, ins)
+        except KrylovStepCap:
+            core.known_hit("K-C10-expmv-stagnation")
+            return []
+
+    def _run(self, task, rec, ins):
         ar = rec["args"]
         wd = core.current_world()
         T, dt = ar["T"], ar["dt"]
